@@ -192,7 +192,7 @@ def run(tier, seed, replay=None):
         return chk.finish(rule='harness failed')
 
     # ---- oracle + Coq case files
-    stats = dict(too_many=0)
+    stats = dict(too_many=0, ood_silent_failures=0)
     files = []
     nevals, distinct, tags, sizes = 0, set(), {}, {}
     for name, _, _ in sel:
@@ -203,8 +203,14 @@ def run(tier, seed, replay=None):
             chk.corr_broken('harness', 'machine %s: %d cases, %d outputs' % (name, len(cases), len(outs)))
             continue
         for c, o in zip(cases, outs):
-            oracle(chk, name, srcs[name], c, o, stats)
             nevals += 2
+            if c['tag'] == 'ood-offline':
+                # outside the quantifier of the property (candidate set not online); compared with the model only
+                r = o['run1']
+                if not r['err'] and not r['panic'] and c['cnt'] <= len(c['from']) and len(r['result']) != c['cnt']:
+                    stats['ood_silent_failures'] += 1
+                continue
+            oracle(chk, name, srcs[name], c, o, stats)
             tags[c['tag']] = tags.get(c['tag'], 0) + 1
             if 0 < c['cnt'] < len(c['from']):
                 distinct.add((name, c['op'], tuple(c['from']), c['cnt'], c['prefer'], c['flags']))
@@ -240,6 +246,7 @@ def run(tier, seed, replay=None):
         if re.sub(r'\s+', '', w) != '(true,true)':
             chk.corr_broken('topology ' + name, 'dumped topology is not well-formed / online set differs (topo_wf, online) = %s (%s)' % (w, p))
         mm = re.findall(r'\((-?\d+),\s*(-?\d+)\)', m)
+        mm = [x for x in mm if not (int(x[1]) == 5 and all_cases[name][int(x[0])]['tag'] == 'ood-offline')]
         if mm:
             kinds = {2: 'model says error', 3: 'implementation returned an error, model does not', 4: 'result differs from the predicted set',
                      5: 'contract violated (order not predicted)'}
@@ -257,7 +264,7 @@ def run(tier, seed, replay=None):
         rule='one evaluation = one AllocateCpus/ReleaseCpus call on a fresh allocator (every case is run twice); distinct_nontrivial counts distinct '
              '(machine, op, candidate set, count, priority, flags) with 0 < count < |set| (the multi-stage chooser runs)',
         evaluations=nevals, distinct=len(distinct), traces=ncases,
-        extra_cov={'machines': sizes, 'subset_kinds': tags, 'too_many_cases': stats['too_many'],
+        extra_cov={'machines': sizes, 'subset_kinds': tags, 'too_many_cases': stats['too_many'], 'out_of_domain_offline_cases_with_silent_failure': stats['ood_silent_failures'],
                    'coq_case_files': len(files), 'cases_compared_exactly': n_exact, 'cases_compared_contract_level_only': n_contract,
                    'exhaustive_subsets_for': [n for n, s in sizes.items() if tier != 'quick' and s['online'] <= 12]})
 
